@@ -37,7 +37,7 @@ rm -rf "$W"/zz_seed_* "$W"/testdirectory/zz_seed_*
 if (cd "$W" && go test -vet=off -count=1 ./... >"$W/.suite.log" 2>&1); then echo "existing suite with patch: PASS (ok)"; else echo "existing suite with patch: FAIL"; tail -5 "$W/.suite.log"; fi
 for id in "$@"; do
   t0=$(date +%s)
-  out=$(cd /verif && VERIF_REPO=$W VERIF_NO_EVIDENCE=1 timeout 3000 ./check "$id" quick 2>&1); rc=$?
+  out=$(cd ${SEED_VERIF:-/verif} && VERIF_REPO=$W VERIF_NO_EVIDENCE=1 timeout 3000 ./check "$id" quick 2>&1); rc=$?
   echo "check $id rc=$rc $(( $(date +%s)-t0 ))s: $(echo "$out" | grep -a "^$id " | tail -1 | cut -c1-160)"
   echo "$out" | grep -a "  key:" | sort | uniq -c | head -8
 done
